@@ -114,7 +114,14 @@ class MessageManager(interfaces.TokenInterface, interfaces.MessageManager):
             if self._deduplicate_message(message) is True:
                 return
 
-        if message.mtype in (ACK, RST):
+        # Only messages that fit the type/code table conclude an exchange: an
+        # empty ACK or a piggy-backed response, and an empty RST. The others
+        # are ignored as a whole (see the last branch below).
+        if message.mtype is ACK and (
+            message.code is EMPTY or message.code.is_response()
+        ):
+            self._remove_exchange(message)
+        elif message.mtype is RST and message.code is EMPTY:
             self._remove_exchange(message)
 
         if message.code is EMPTY and message.mtype is CON:
